@@ -56,6 +56,17 @@ def histories(tier):
         # same name, same equations but a different number of results is a different signature too
         b3 = [{"op": "item", "a": R(6), "i": 0}, BIN("mul", R(7), R(7))]
         H.append(("samebody/%d,%d" % (a, b), [S(a), U(b), sub("f", [R(0)], b1, R(4)), sub("f", [R(5)], b3, R(8)), VAL(R(9))]))
+        # one call asserts the same equality twice (same wires, textually identical equations), the other not at all / once
+        def asserting(base, times):
+            return [{"op": "item", "a": R(base), "i": 0}, {"op": "item", "a": R(base), "i": 1}] + \
+                   [{"op": "meth", "name": "assert_eq", "a": R(base + 1), "args": [R(base + 1)]} for _ in range(times)] + \
+                   [BIN("mul", R(base + 1), R(base + 2))]
+        for (t1, t2) in ((0, 2), (1, 2), (2, 2), (1, 3)):
+            c1 = asserting(2, t1)
+            n1 = 2 + 1 + len(c1) + 1           # registers used so far: a, b, args list, body steps, call result
+            c2 = asserting(n1, t2)
+            H.append(("dupassert%d%d/%d,%d" % (t1, t2, a, b), [S(a), U(b), sub("f", [R(0), R(1)], c1, R(2 + len(c1))),
+                                                              sub("f", [R(0), R(1)], c2, R(n1 + len(c2))), VAL(R(n1 + len(c2) + 1))]))
         # nested: outer(x,y) calls inner(x) and multiplies
         inner_base = 2 + 1 + 2      # outer args list r2, items r3 r4, then the inner call starts at r5
         inner = [{"op": "item", "a": R(5), "i": 0}, BIN("mul", R(6), R(6))]
